@@ -640,7 +640,7 @@ def rule_r6(ctx):
         f = repo.func(f"onnx_ir._type_casting:{name}")
         per = 8 // K
         masks, shifts, strides, mods = [], [], [], []
-        for n in own_nodes(f.node):
+        for n in ast.walk(_unrolled(f.node)):
             if isinstance(n, (ast.BinOp, ast.AugAssign)) and isinstance(n.op, ast.BitAnd):
                 v = n.right if isinstance(n, ast.BinOp) else n.value
                 c = _const(v)
@@ -649,7 +649,7 @@ def rule_r6(ctx):
             if isinstance(n, (ast.BinOp, ast.AugAssign)) and isinstance(n.op, (ast.LShift, ast.RShift)):
                 v = n.right if isinstance(n, ast.BinOp) else n.value
                 c = _const(v)
-                if c is not None:
+                if c is not None and c != 0:  # a shift by 0 is the identity (lane 0 of a loop over the lanes)
                     shifts.append((c, n))
             if isinstance(n, ast.Slice) and n.step is not None and _const(n.step) is not None:
                 strides.append((_const(n.step), n, _const(n.lower) or 0))
@@ -682,6 +682,68 @@ def rule_r6(ctx):
         ctx.check("R6", f"{name}: shifts cover lanes 1..{per - 1}", used == [K * j for j in range(1, per)], f, f.node,
                   f"shift amounts {used}, expected {[K * j for j in range(1, per)]}", how="one shift per upper lane",
                   construct=f"shifts {used}")
+
+
+class _Fold(ast.NodeTransformer):
+    """Substitutes integer constants for names and folds integer arithmetic on constants."""
+
+    def __init__(self, env):
+        self.env = env
+
+    def visit_Name(self, node):
+        if isinstance(node.ctx, ast.Load) and node.id in self.env:
+            return ast.copy_location(ast.Constant(value=self.env[node.id]), node)
+        return node
+
+    def visit_BinOp(self, node):
+        self.generic_visit(node)
+        l, r = node.left, node.right
+        if isinstance(l, ast.Constant) and isinstance(r, ast.Constant) and isinstance(l.value, int) and isinstance(r.value, int) \
+                and not isinstance(l.value, bool) and not isinstance(r.value, bool):
+            try:
+                v = {ast.Add: lambda a, b: a + b, ast.Sub: lambda a, b: a - b, ast.Mult: lambda a, b: a * b, ast.LShift: lambda a, b: a << b if 0 <= b < 64 else None,
+                     ast.RShift: lambda a, b: a >> b if 0 <= b < 64 else None, ast.BitOr: lambda a, b: a | b, ast.BitAnd: lambda a, b: a & b,
+                     ast.FloorDiv: lambda a, b: a // b if b else None}.get(type(node.op), lambda a, b: None)(l.value, r.value)
+            except Exception:
+                v = None
+            if v is not None:
+                return ast.copy_location(ast.Constant(value=v), node)
+        return node
+
+
+def _unrolled(fn_node):
+    """A copy of the function in which every `for v in range(<constants>)` loop (at most 16 iterations) is replaced by its
+    iterations with v written out and integer arithmetic folded: `for lane in range(1, 4): x[lane::4] <<= 2 * lane` reads as the
+    three statements it performs."""
+    import copy
+
+    tree = copy.deepcopy(fn_node)
+
+    class Unroll(ast.NodeTransformer):
+        def visit_For(self, node):
+            self.generic_visit(node)
+            it = node.iter
+            if isinstance(node.target, ast.Name) and isinstance(it, ast.Call) and isinstance(it.func, ast.Name) and it.func.id == "range" and not node.orelse \
+                    and 1 <= len(it.args) <= 3 and all(isinstance(a, ast.Constant) and isinstance(a.value, int) for a in it.args):
+                vals = list(range(*[a.value for a in it.args]))
+                if len(vals) <= 16 and not any(isinstance(x, (ast.Break, ast.Continue)) for st in node.body for x in ast.walk(st)):
+                    out = []
+                    for v in vals:
+                        env = {node.target.id: v}
+                        for st in node.body:
+                            st2 = _Fold(env).visit(copy.deepcopy(st))
+                            out.append(st2)
+                            # a local bound to a constant of this iteration (`shift = 2 * lane`) is written out below it
+                            if isinstance(st2, ast.Assign) and len(st2.targets) == 1 and isinstance(st2.targets[0], ast.Name):
+                                if isinstance(st2.value, ast.Constant) and isinstance(st2.value.value, int):
+                                    env[st2.targets[0].id] = st2.value.value
+                                else:
+                                    env.pop(st2.targets[0].id, None)
+                    return out or [ast.Pass()]
+            return node
+
+    tree = Unroll().visit(tree)
+    return _Fold({}).visit(tree)
 
 
 def _const(e):
